@@ -26,7 +26,7 @@ from fractions import Fraction
 
 VERIF = os.path.dirname(os.path.dirname(os.path.abspath(__file__)))
 COQ = os.path.join(VERIF, "coq")
-REPO = "/repo"
+REPO = os.environ.get("VERIF_REPO", "/repo")
 WORK = os.path.join(VERIF, ".work")
 
 # --------------------------------------------------------------------------- s-expressions
@@ -422,7 +422,7 @@ def load_known(pid):
 
 def repo_head():
     try:
-        rc, out = sh("git -C /repo rev-parse HEAD; git -C /repo status --porcelain | head -20", 30)
+        rc, out = sh("git -C %s rev-parse HEAD; git -C %s status --porcelain | head -20" % (REPO, REPO), 30)
         return out.strip()
     except Exception:
         return "unknown"
